@@ -150,8 +150,9 @@ def _case(rng, cls, Ms):
             off = rng.choice([0.0, -5.0, -20.0])
             bs = [rng.uniform(0, 2) + off for _ in range(n)]
             ds = [max(bs) + rng.uniform(0.05, 3) for _ in range(n)]
-        if len(set(ds)) < 2 or len(set(bs)) < 2:
+        if len(set(bs)) < 2:
             bs[0] -= 1.0
+        if len(set(ds)) < 2:        # (separately: raising ds[0] of two distinct deaths could make them equal -> endless loop below)
             ds[0] += 1.0
         d2 = ds[:]
         while d2 == ds:
